@@ -238,3 +238,35 @@ pub fn pd_model(_jsx_attr: &JSXAttr, is_component: bool) -> Directive {
 }
 
 pub use verif_models::extend_from_slice_model;
+
+// global slots for TS type inputs (same rationale as `bx`): infer_runtime_type / resolve_indexed_access branch on the type's shape
+pub static mut G_T0: TsType = TsType::TsThisType(TsThisType { span: DUMMY_SP });
+pub static mut G_T1: TsType = TsType::TsThisType(TsThisType { span: DUMMY_SP });
+pub static mut G_T2: TsType = TsType::TsThisType(TsThisType { span: DUMMY_SP });
+pub static mut G_T3: TsType = TsType::TsThisType(TsThisType { span: DUMMY_SP });
+pub static mut G_T4: TsType = TsType::TsThisType(TsThisType { span: DUMMY_SP });
+pub static mut G_T5: TsType = TsType::TsThisType(TsThisType { span: DUMMY_SP });
+pub static mut G_T6: TsType = TsType::TsThisType(TsThisType { span: DUMMY_SP });
+pub static mut G_T7: TsType = TsType::TsThisType(TsThisType { span: DUMMY_SP });
+pub static mut G_T8: TsType = TsType::TsThisType(TsThisType { span: DUMMY_SP });
+pub static mut G_T9: TsType = TsType::TsThisType(TsThisType { span: DUMMY_SP });
+pub static mut G_TNEXT: u32 = 0;
+pub fn bxt(t: TsType) -> Box<TsType> {
+    unsafe {
+        if !G_ON { return Box::new(t); }
+        let slot = G_TNEXT; G_TNEXT += 1;
+        match slot {
+        0 => { G_T0 = t; Box::from_raw(core::ptr::addr_of_mut!(G_T0)) }
+        1 => { G_T1 = t; Box::from_raw(core::ptr::addr_of_mut!(G_T1)) }
+        2 => { G_T2 = t; Box::from_raw(core::ptr::addr_of_mut!(G_T2)) }
+        3 => { G_T3 = t; Box::from_raw(core::ptr::addr_of_mut!(G_T3)) }
+        4 => { G_T4 = t; Box::from_raw(core::ptr::addr_of_mut!(G_T4)) }
+        5 => { G_T5 = t; Box::from_raw(core::ptr::addr_of_mut!(G_T5)) }
+        6 => { G_T6 = t; Box::from_raw(core::ptr::addr_of_mut!(G_T6)) }
+        7 => { G_T7 = t; Box::from_raw(core::ptr::addr_of_mut!(G_T7)) }
+        8 => { G_T8 = t; Box::from_raw(core::ptr::addr_of_mut!(G_T8)) }
+        9 => { G_T9 = t; Box::from_raw(core::ptr::addr_of_mut!(G_T9)) }
+        _ => Box::new(t),
+        }
+    }
+}
